@@ -76,6 +76,10 @@ class IntrospectablePass(object):
         target = self._transformer.resolve_aliases(target)
 
         if node.skip:
+            # A skipped value is not exposed to bindings, but the GIR format
+            # still requires it to state an ownership transfer.
+            if node.transfer is None:
+                node.transfer = ast.PARAM_TRANSFER_NONE
             return
 
         if not node.type.resolved:
